@@ -291,6 +291,22 @@ impl Node {
     }
 }
 
+impl Drop for Node {
+    fn drop(&mut self) {
+        // Drop the descendants with an explicit stack rather than with the recursive calls of the
+        // default implementation, so the nesting level of the HTML is not limited by the size of
+        // the call stack.
+        let mut stack = self.children.take();
+
+        while let Some(node) = stack.pop() {
+            // Only nodes that are not referenced from anywhere else are dropped.
+            if let Some(node) = Rc::into_inner(node.0) {
+                stack.extend(node.children.take());
+            }
+        }
+    }
+}
+
 /// The data of a `Node`.
 #[derive(Debug, Clone)]
 #[allow(clippy::exhaustive_enums)]
@@ -480,31 +496,46 @@ impl NodeRef {
     where
         S: Serializer,
     {
-        match self.data() {
-            NodeData::Element(data) => {
-                serializer.start_elem(
-                    data.name.clone(),
-                    data.attrs.borrow().iter().map(|attr| (&attr.name, &*attr.value)),
-                )?;
-
-                for child in self.children() {
-                    child.serialize(serializer)?;
-                }
-
-                serializer.end_elem(data.name.clone())?;
-
-                Ok(())
-            }
-            NodeData::Document => {
-                for child in self.children() {
-                    child.serialize(serializer)?;
-                }
-
-                Ok(())
-            }
-            NodeData::Text(text) => serializer.write_text(&text.borrow()),
-            _ => Ok(()),
+        /// A step of the traversal.
+        enum Step {
+            /// Serialize the node and its descendants.
+            Node(NodeRef),
+            /// Close the element with the given name.
+            EndElement(QualName),
         }
+
+        // Walk the tree with an explicit stack rather than with recursive calls, so the nesting
+        // level of the HTML is not limited by the size of the call stack.
+        let mut stack = vec![Step::Node(self.clone())];
+
+        while let Some(step) = stack.pop() {
+            let node = match step {
+                Step::Node(node) => node,
+                Step::EndElement(name) => {
+                    serializer.end_elem(name)?;
+                    continue;
+                }
+            };
+
+            match node.data() {
+                NodeData::Element(data) => {
+                    serializer.start_elem(
+                        data.name.clone(),
+                        data.attrs.borrow().iter().map(|attr| (&attr.name, &*attr.value)),
+                    )?;
+
+                    stack.push(Step::EndElement(data.name.clone()));
+                    stack.extend(node.0.children.borrow().iter().rev().cloned().map(Step::Node));
+                }
+                NodeData::Document => {
+                    stack.extend(node.0.children.borrow().iter().rev().cloned().map(Step::Node));
+                }
+                NodeData::Text(text) => serializer.write_text(&text.borrow())?,
+                _ => {}
+            }
+        }
+
+        Ok(())
     }
 }
 
